@@ -98,7 +98,7 @@ class IndexKernel(Kernel):
         res = PsdSumLinearOperator(RootLinearOperator(self.covar_factor), DiagLinearOperator(var))
         return res
 
-    def forward(self, i1, i2, **params):
+    def forward(self, i1, i2, diag=False, **params):
 
         i1, i2 = i1.long(), i2.long()
         covar_matrix = self._eval_covar_matrix()
@@ -109,4 +109,6 @@ class IndexKernel(Kernel):
             left_interp_indices=i1.expand(batch_shape + i1.shape[-2:]),
             right_interp_indices=i2.expand(batch_shape + i2.shape[-2:]),
         )
+        if diag:
+            return res.diagonal(dim1=-1, dim2=-2)
         return res
